@@ -11,6 +11,7 @@
 From Coq Require Import List Arith Bool NArith.
 From PV Require Import Model.Registry Proofs.RegistryFacts Proofs.RegistryProofs Proofs.RegistryNestProofs.
 From PV Require Import Model.RegistryConc Proofs.RegistryConcProofs Model.RegisterHelpers Proofs.RegisterHelpersProofs.
+From PV Require Import Model.RegistrySection Proofs.RegistrySectionProofs.
 From Coq Require Import String.
 Import ListNotations.
 
@@ -239,3 +240,36 @@ Example C18_helper_dropping_default_rejected :
   shape_via bad register_ptr_helper (mkShape RPlugin CPtr true false DefVal TImpl false) =
     Some (mkShape RPlugin CPtr true false DefNone TImpl false).
 Proof. vm_compute. split; reflexivity. Qed.
+
+(* ---- config sections and lookup (Model/RegistrySection.v) ---- *)
+
+(* pluginconfig.parseConf + Registry.get: a creation through a config section reaches Registry.New
+   exactly when the section is a map with string keys holding exactly one (case-insensitive) type
+   key whose value is a string naming a registered plugin; EVERY other section is an error result
+   of the creation (no event: neither the default function nor the constructor runs). *)
+Theorem C18_section_creation : forall sh hf o s sec,
+  (section_ok_b sec = true -> create_by_section sh hf o s sec = inr (reg_new sh hf o s)) /\
+  (section_ok_b sec = false -> exists e, create_by_section sh hf o s sec = inl e).
+Proof. exact section_creation. Qed.
+Print Assumptions C18_section_creation.
+
+Theorem C18_section_product_config : forall sh hf o s sec s1 ev p,
+  create_by_section sh hf o s sec = inr (s1, ev, OOk p) -> p_arg p = expected_arg sh hf o s.
+Proof. exact section_product_config. Qed.
+Print Assumptions C18_section_product_config.
+
+(* Registry.New / NewFactory by (plugin type, name) *)
+Theorem C18_lookup_creation : forall content t n sh hf o s,
+  types_unique content = true ->
+  (registered_b content t n = true -> new_by_name content t n sh hf o s = inr (reg_new sh hf o s)) /\
+  (registered_b content t n = false -> exists e, new_by_name content t n sh hf o s = inl e).
+Proof. exact lookup_creation. Qed.
+Print Assumptions C18_lookup_creation.
+
+Example C18_section_examples :
+  section_ok_b (mkSec FUntypedMap [TkAbsent; TkName true; TkAbsent] false) = true /\
+  section_ok_b (mkSec FStrMap [TkName true; TkName true; TkAbsent] false) = false /\
+  section_ok_b (mkSec FStrMap [TkName false; TkAbsent; TkAbsent] false) = false /\
+  section_ok_b (mkSec FUntypedMap [TkName true; TkAbsent; TkAbsent] true) = false /\
+  parse_section (mkSec FStrMap [TkNonString; TkName true; TkAbsent] false) = inl SeTypeValue.
+Proof. vm_compute. repeat split. Qed.
